@@ -10,6 +10,8 @@ native_rejected_demo = runner.make_native_replay("h-slice", "balanced_after_reje
 
 P = "c42::proofs::"
 hs = [
+    H(P + "c42_history_1_nofail", timeout=900, mem=10, covers=2,
+      desc="first call on a fresh stack: current()/current_relative() are the path; the root and every directory component are open", inputs="1 path of 1..=3 components over two names", bound="unwind 6"),
     H(P + "c42_history_2_nofail", timeout=1500, mem=16, covers=2,
       desc="two arbitrary paths made current one after the other: current()/current_relative() are the last path and push_directory - pop_directory equals the number of open directories",
       inputs="2 paths of 1..=3 components over two names, all combinations satisfying the documented precondition (no path a proper prefix of another)", bound="unwind 6; paths <= 3 components"),
